@@ -32,6 +32,8 @@ class FakeRandom:
 
     @staticmethod
     def choice(seq):
+        if not len(seq):
+            raise IndexError("Cannot choose from an empty sequence")
         return seq[E.pick(len(seq))]
 
 
